@@ -320,6 +320,13 @@ var hosts = []host{
 		return "<script type=\"application/ld+json\" src=x></script><script>" + p + "</script>"
 	}, wantType: "application/javascript", pre: ident, extract: htmlLastElemText("script"), rawText: true},
 	{name: "html script after empty unknown-typed style", hostType: "text/html", build: func(p string) string { return "<style type=\"text/x-unknown\"></style><script>" + p + "</script>" }, wantType: "application/javascript", pre: ident, extract: htmlLastElemText("script"), rawText: true},
+	// two dispatched attributes on ONE element: scratch state must not leak from the first into the second
+	{name: "html onclick= after style= on the same element", hostType: "text/html", build: func(p string) string {
+		return "<p style=\"color:red\" onclick=\"" + attrEscape(p) + "\">x</p>"
+	}, wantType: "application/javascript", wantParams: "inline=1;", pre: jsPre, extract: htmlAttr("p", "onclick"), attr: true},
+	{name: "html style= after onmouseover= on the same element", hostType: "text/html", build: func(p string) string {
+		return "<p onmouseover=\"f()\" style=\"" + attrEscape(p) + "\">x</p>"
+	}, wantType: "text/css", wantParams: "inline=1;", pre: strings.TrimSpace, extract: htmlAttr("p", "style"), attr: true},
 	{name: "html style= attribute", hostType: "text/html", build: func(p string) string { return "<p style=\"" + attrEscape(p) + "\">x</p>" }, wantType: "text/css", wantParams: "inline=1;", pre: strings.TrimSpace, extract: htmlAttr("p", "style"), attr: true},
 	{name: "html onclick= attribute", hostType: "text/html", build: func(p string) string { return "<p onclick=\"" + attrEscape(p) + "\">x</p>" }, wantType: "application/javascript", wantParams: "inline=1;", pre: jsPre, extract: htmlAttr("p", "onclick"), attr: true},
 	{name: "html onload=javascript:", hostType: "text/html", build: func(p string) string { return "<p onload=\" JavaScript:" + attrEscape(p) + "\">x</p>" }, wantType: "application/javascript", wantParams: "inline=1;", pre: func(p string) string { return jsPre(" JavaScript:" + p) }, extract: htmlAttr("p", "onload"), attr: true},
